@@ -199,7 +199,7 @@ class FullCheck(BaseCheck):
     t_start = env.now
     if boundary:
       classes.add('boundary')
-    methods = ['echo', 'echo', 'echo', 'fail', 'swap', 'extra']
+    methods = ['echo', 'echo', 'echo', 'fail', 'fail', 'swap', 'extra']
     for when, what in events:
       target = t_start + when
       if boundary:
@@ -210,6 +210,8 @@ class FullCheck(BaseCheck):
         m = rng.choice(methods)
         cid = len(w.calls)
         tagstr = 'c%d-%d' % (cid, rng.getrandbits(20))
+        if m == 'fail' and rng.random() < 0.4:
+          tagstr += ':FINE'         # this call returns a value; 'fail' otherwise raises its declared exception
         args = (ttypes.Pair(name=tagstr, n=cid, nums=[1, 2], kv={}),) if m == 'swap' else (tagstr,)
         T = rng.choice(Tset)
         if boundary and not (w.dispatcher._open_ar is not None and w.dispatcher._open_ar.ready()) and rng.random() < 0.7:
